@@ -29,7 +29,7 @@ class Suite:
     def prepare_impl(self, ops):
         return ops
 
-    def prepare_model(self, ops):
+    def prepare_model(self, ops, impl=None):
         return ops
 
     def run_impl(self, vh, ops):
@@ -76,7 +76,7 @@ def minimise(suite, vh, op, pred, budget=300):
         for s in range(0, len(cands), B):
             batch = cands[s:s + B]
             impl = suite.run_impl(vh, suite.prepare_impl(batch))
-            model = suite.run_model(suite.prepare_model(batch))
+            model = suite.run_model(suite.prepare_model(batch, impl))
             steps += len(batch)
             hit = None
             for c, i, m in zip(batch, impl, model):
@@ -111,7 +111,7 @@ def run_suites(pid, suites, tier, seed, vh, known, evidence):
         rng = random.Random("%s/%s/%d" % (pid, suite.name, seed))
         ops = list(suite.corpus()) + list(suite.gen(rng, tier))
         impl = suite.run_impl(vh, suite.prepare_impl(ops))
-        model = suite.run_model(suite.prepare_model(ops))
+        model = suite.run_model(suite.prepare_model(ops, impl))
         nv = nd = 0
         for op, i, m in zip(ops, impl, model):
             total += 1
@@ -207,7 +207,7 @@ def check_property(pid, suites, tier, seed, level_note="", assumptions=None, lea
         suite, op, i, m, note = unknown[0]
         small = minimise(suite, vh, op, lambda c, ci, cm: suite.judge(c, ci, cm).spec_ok is False and not _match_known(pid, known, suite, c, ci, cm))
         si = suite.run_impl(vh, suite.prepare_impl([small]))[0]
-        sm = suite.run_model(suite.prepare_model([small]))[0]
+        sm = suite.run_model(suite.prepare_model([small], [si]))[0]
         rp = core.write_replay(pid, "violation", {"property": pid, "suite": suite.name, "op": small, "impl": si, "model": sm,
                                                   "note": suite.judge(small, si, sm).note, "original_op": op if small != op else None,
                                                   "count_unlisted_violations": len(unknown)})
@@ -227,7 +227,7 @@ def check_property(pid, suites, tier, seed, level_note="", assumptions=None, lea
             more = list(suite.gen(random.Random("search2/%s/%d" % (pid, seed)), "search"))
             cands += more
             ci = suite.run_impl(vh, suite.prepare_impl(cands))
-            cm = suite.run_model(suite.prepare_model(cands))
+            cm = suite.run_model(suite.prepare_model(cands, ci))
             for c, a, b in zip(cands, ci, cm):
                 try:
                     v = suite.judge(c, a, b)
@@ -237,14 +237,14 @@ def check_property(pid, suites, tier, seed, level_note="", assumptions=None, lea
                     found = (suite, c, a, b, v.note)
                     break
             si = suite.run_impl(vh, suite.prepare_impl([small]))[0]
-            sm = suite.run_model(suite.prepare_model([small]))[0]
+            sm = suite.run_model(suite.prepare_model([small], [si]))[0]
             detail = {"suite": suite.name, "op": small, "impl": si, "model": sm, "note": note,
                       "disagreements": len(disagreements), "searched": len(cands)}
         if found:
             suite, c, a, b, note = found
             small = minimise(suite, vh, c, lambda x, xi, xm: suite.judge(x, xi, xm).spec_ok is False)
             si = suite.run_impl(vh, suite.prepare_impl([small]))[0]
-            sm = suite.run_model(suite.prepare_model([small]))[0]
+            sm = suite.run_model(suite.prepare_model([small], [si]))[0]
             rp = core.write_replay(pid, "violation", {"property": pid, "suite": suite.name, "op": small, "impl": si, "model": sm,
                                                       "note": suite.judge(small, si, sm).note, "first_disagreement": detail})
             print("VIOLATION property=%s replay=%s" % (pid, rp))
@@ -300,7 +300,7 @@ def replay(pid, suites, path):
     vh = core.build_harness()
     core.lake_build(["fsdriver"])
     i = suite.run_impl(vh, suite.prepare_impl([op]))[0]
-    m = suite.run_model(suite.prepare_model([op]))[0]
+    m = suite.run_model(suite.prepare_model([op], [i]))[0]
     v = suite.judge(op, i, m)
     print(json.dumps({"op": op, "impl": i, "model": m, "agree": v.agree, "spec_ok": v.spec_ok, "note": v.note}, indent=1))
     return 0 if (v.agree and v.spec_ok is not False) else 1
